@@ -368,16 +368,28 @@ func RaceReplay(t *Trace) (string, string) {
 	dir := filepath.Join(scratchDir(), "tmp")
 	os.MkdirAll(dir, 0o755)
 	logFile := fmt.Sprintf("%s.%d", os.Getenv("VERIF_RACE_LOG"), os.Getpid())
+	// Which pair of code paths the detector names for one racy variable depends on the runtime's
+	// schedule: keep executing until the recorded pair shows (at most 20 executions), and fall back to
+	// the first report otherwise.
+	firstSig, firstWhat := "", ""
 	for k := 0; k < 20; k++ {
 		RunRaceProgram(t, dir, k)
 		if b, err := os.ReadFile(logFile); err == nil && len(b) > 0 {
 			sigs := ParseRaceLog(string(b))
-			if len(sigs) > 0 {
-				return sigs[0], firstRaceBlock(string(b))
+			if len(sigs) > 0 && firstSig == "" {
+				firstSig, firstWhat = sigs[0], firstRaceBlock(string(b))
+			}
+			for _, sg := range sigs {
+				if sg == t.Sig {
+					return sg, firstRaceBlock(string(b))
+				}
+			}
+			if firstSig != "" && (t.Sig == "" || k >= 7) {
+				break
 			}
 		}
 	}
-	return "", ""
+	return firstSig, firstWhat
 }
 
 var _ = context.Background
